@@ -375,6 +375,13 @@ func (r *runner) iflushfault(shard, step int) {
 	r.c.Branch(fmt.Sprintf("index-flush-fault-%d-%s", step, strings.ReplaceAll(out, " ", "-")))
 }
 
+// ievict: one shard's sequence cache drops a metric's entry. The answer (was there an entry?) is compared with
+// the model's cache, the effect shows in the ids of the next new series of that metric.
+func (r *runner) ievict(shard, metricID int) {
+	out := r.guard(fmt.Sprintf("ievict %d %d", shard, metricID), func() string { return r.s.indexEvictSeq(shard, metricID) })
+	r.c.Branch("seq-cache-" + out)
+}
+
 // seriesAudit: for every (shard, metric) that has known series: one series with a brand-new tag set is
 // created, then every known tag set is asked for again. Whatever happened before (failed flush steps, crashes,
 // reopen): the new series must not get an id that the dictionary — recovered or not — answers for an old one
@@ -670,6 +677,10 @@ func (area) Run(c *core.Ctx) error {
 				err = witnessIndexFlushFault(c, db, i-22)
 			case 26:
 				err = witnessNameLimits(c, db)
+			case 27:
+				err = witnessSeqCacheEvict(c, db)
+			case 28:
+				err = witnessBucketRelease(c, db)
 			default:
 				if rng.Intn(12) == 0 {
 					err = bufReuseRegion(c, rng, db, false)
@@ -747,8 +758,21 @@ func randomCase(c *core.Ctx, rng *rand.Rand, db string) error {
 		case k < 62:
 			// what an index worker does for one row: metric id, then series id
 			ns, name := rng.Intn(nNS), rng.Intn(nMetric)
-			if id, ok := r.metric(ns, name); ok {
-				r.series(rng.Intn(nShards), ns, name, int(id), randTags(rng, nKeys, nVals))
+			if len(r.seriesArgs) > 0 && rng.Intn(5) == 0 {
+				// a metric that has series in a shard (so, most of the time, an entry in that shard's sequence
+				// cache) is dropped by the LRU; the next rows of that metric bring (mostly new) tag sets
+				ks := sortedSeriesKeys(r.seriesArgs)
+				a := r.seriesArgs[ks[rng.Intn(len(ks))]]
+				r.ievict(a.shard, a.metricID)
+				r.series(a.shard, a.ns, a.name, a.metricID, randTags(rng, nKeys, nVals))
+				r.series(a.shard, a.ns, a.name, a.metricID, randTags(rng, nKeys, nVals))
+			} else if id, ok := r.metric(ns, name); ok {
+				sh := rng.Intn(nShards)
+				if rng.Intn(4) == 0 {
+					// the LRU sequence cache has dropped the metric by the time the row arrives
+					r.ievict(sh, int(id))
+				}
+				r.series(sh, ns, name, int(id), randTags(rng, nKeys, nVals))
 			}
 		case k < 62+4*flushy:
 			switch rng.Intn(4) {
